@@ -168,7 +168,20 @@ def shapes() -> List[Callable[[Flags], Stack]]:
         return Stack(root=None if bool(F.b("no_root")) else Obj("r"), frames=[], leaf=FalsyObj("only leaf") if bool(F.b("leaf")) else None,
                      error=ValueError("e") if bool(F.b("error")) else None)
 
-    S.extend([s0, s1, s2, s3, s4, s5, s6])
+    def s7(F: Flags) -> Stack:
+        # a context with BOTH an inner stack and children; a NON-last child that has children of its own (the
+        # continuation bar of the parent must run through every line of that child's subtree)
+        inner = Stack(root=None, frames=[mk_frame(F, 2, [mk_ctx(F, flagged=False, texts=True)], flagged=False)],
+                      leaf=Obj("ileaf") if bool(F.b("inner_leaf")) else None)
+        grand = [mk_ctx(F, flagged=False), Stack(root=Obj("gtask"), frames=[mk_frame(F, 3, [], flagged=False)])]
+        kids: List[Any] = [mk_ctx(F, children=grand), Stack(root=Obj("task"), frames=[mk_frame(F, 0, [mk_ctx(F, flagged=False)])]),
+                           mk_ctx(F, flagged=False, texts=True)]
+        if bool(F.b("kids_reversed")):
+            kids = kids[::-1]
+        return Stack(root=Obj("root"), frames=[mk_frame(F, 1, [mk_ctx(F, inner=inner, children=kids)], flagged=False), mk_frame(F, 3, [])],
+                     leaf=Obj("leaf") if bool(F.b("leaf")) else None)
+
+    S.extend([s0, s1, s2, s3, s4, s5, s6, s7])
     return S
 
 
